@@ -363,4 +363,69 @@ theorem earClip_succeeds (isEar : List Pt → Nat → Bool)
       rw [earClip_succ]
       simp [hj, hclip, hts']
 
+/-- A polygon with at least three vertices never produces the `tooShort` error: every
+intermediate polygon of the loop still has at least three vertices. -/
+theorem earClip_not_short (isEar : List Pt → Nat → Bool) : ∀ (fuel : Nat) (p : List Pt),
+    3 ≤ p.length → earClip isEar fuel p ≠ .error .tooShort := by
+  intro fuel
+  induction fuel with
+  | zero =>
+    intro p hp h
+    match p, hp, h with
+    | [], hp, _ => simp at hp
+    | [_], hp, _ => simp at hp
+    | [_, _], hp, _ => simp at hp
+    | [a, b, c], _, h => rw [earClip_tri] at h; simp at h
+    | a :: b :: c :: d :: rest, _, h => rw [earClip_zero] at h; simp at h
+  | succ fuel ih =>
+    intro p hp h
+    match p, hp, h with
+    | [], hp, _ => simp at hp
+    | [_], hp, _ => simp at hp
+    | [_, _], hp, _ => simp at hp
+    | [a, b, c], _, h => rw [earClip_tri] at h; simp at h
+    | a :: b :: c :: d :: rest, hp, h =>
+      rw [earClip_succ] at h
+      split at h
+      · simp at h
+      · split at h
+        · simp at h
+        · rename_i t p' hclip
+          obtain ⟨_, _, hl, _, _, _⟩ := clipAt_props _ _ _ _ hclip
+          split at h
+          · simp at h
+          · rename_i e hrec
+            simp only [Except.error.injEq] at h
+            subst h
+            exact ih p' (by simp only [List.length_cons] at hl; omega) hrec
+
+/-! ### unsigned areas -/
+
+theorem absR_of_nonneg {r : Rat} (h : 0 ≤ r) : absR r = r := by simp [absR, h]
+
+theorem absR_of_nonpos {r : Rat} (h : r ≤ 0) : absR r = -r := by
+  unfold absR
+  split
+  · have : r = 0 := le_antisymm h ‹0 ≤ r›
+    simp [this]
+  · rfl
+
+theorem sumAbs_of_nonneg : ∀ ts : List Tri, (∀ t ∈ ts, 0 ≤ t.area2) →
+    sumAbsArea2 ts = sumArea2 ts ∧ 0 ≤ sumArea2 ts
+  | [], _ => by simp [sumAbsArea2, sumArea2]
+  | t :: ts, h => by
+      have ht := h t List.mem_cons_self
+      obtain ⟨e, n⟩ := sumAbs_of_nonneg ts (fun u hu => h u (List.mem_cons_of_mem _ hu))
+      simp only [sumAbsArea2, sumArea2, absR_of_nonneg ht, e]
+      exact ⟨trivial, add_nonneg ht n⟩
+
+theorem sumAbs_of_nonpos : ∀ ts : List Tri, (∀ t ∈ ts, t.area2 ≤ 0) →
+    sumAbsArea2 ts = - sumArea2 ts ∧ sumArea2 ts ≤ 0
+  | [], _ => by simp [sumAbsArea2, sumArea2]
+  | t :: ts, h => by
+      have ht := h t List.mem_cons_self
+      obtain ⟨e, n⟩ := sumAbs_of_nonpos ts (fun u hu => h u (List.mem_cons_of_mem _ hu))
+      simp only [sumAbsArea2, sumArea2, absR_of_nonpos ht, e]
+      exact ⟨by ring, by linarith⟩
+
 end Ems.Tri
